@@ -92,6 +92,23 @@ func updateTimeBoundsForRow(lo *storage.LookupOptions, cls *semantic.GraphClause
 	return nlo, nil
 }
 
+// outsideTimeBounds returns true if the predicate is temporal and its time
+// anchor lies outside the time bounds of the lookup options. Immutable
+// predicates are never outside, as in the storage lookups.
+func outsideTimeBounds(p *predicate.Predicate, lo *storage.LookupOptions) bool {
+	if p == nil || lo == nil || p.Type() != predicate.Temporal {
+		return false
+	}
+	ta, err := p.TimeAnchor()
+	if err != nil {
+		return false
+	}
+	if lo.LowerAnchor != nil && ta.Before(*lo.LowerAnchor) {
+		return true
+	}
+	return lo.UpperAnchor != nil && ta.After(*lo.UpperAnchor)
+}
+
 // simpleExist returns true if the triple exist. Return the unfeasible state,
 // the table and the error if present.
 func simpleExist(ctx context.Context, gs []storage.Graph, cls *semantic.GraphClause, t *triple.Triple, w io.Writer) (bool, *table.Table, error) {
@@ -140,6 +157,10 @@ func simpleFetch(ctx context.Context, gs []storage.Graph, cls *semantic.GraphCla
 		t, err := triple.New(s, p, o)
 		if err != nil {
 			return nil, err
+		}
+		if outsideTimeBounds(p, lo) {
+			// The existence check has no lookup options: apply the time bounds here.
+			return tbl, nil
 		}
 		for _, g := range gs {
 			gID := g.ID(ctx)
